@@ -53,7 +53,8 @@ type Hist struct {
 }
 
 type Opt struct {
-	Regime string `json:"regime"` // "commit" | "stamp"
+	Regime string `json:"regime"` // "commit" | "stamp" | "mixed"
+	Cut    int    `json:"cut"`    // mixed: versions with time >= cut carry a commit time
 	Eps    int    `json:"eps"`
 	IgI    bool   `json:"igI"`
 	IgM    bool   `json:"igM"`
@@ -68,12 +69,13 @@ type Lay struct {
 	Skew    int    `json:"skew"`  // commit regime: Timestamp = Committed - skew seconds (skew <= base)
 	VStep   int    `json:"vstep"` // version number of version index v = voff + vstep*v
 	VOff    int    `json:"voff"`
-	IDBase  int64  `json:"idbase,string"`  // element id of child k = idbase + k (same number for every type)
-	CsBase  int64  `json:"csbase,string"`  // changeset id = csbase + abstract cs
-	Shuffle int64  `json:"shuffle"` // seed for the order of versions inside the datasource lists
-	Runs    int    `json:"runs"`    // R
-	OptAll  bool   `json:"optall"`  // pass every option explicitly (else only the non-default ones)
-	SameID  bool   `json:"sameid"`  // all children share one id number (only when their types differ)
+	IDBase  int64  `json:"idbase,string"` // element id of child k = idbase + k (same number for every type)
+	CsBase  int64  `json:"csbase,string"` // changeset id = csbase + abstract cs
+	Shuffle int64  `json:"shuffle"`       // seed for the order of versions inside the datasource lists
+	Runs    int    `json:"runs"`          // R
+	OptAll  bool   `json:"optall"`        // pass every option explicitly (else only the non-default ones)
+	SameID  bool   `json:"sameid"`        // all children share one id number (only when their types differ)
+	Late    bool   `json:"late"`          // timestamp regime: no commit info although every timestamp is after CommitInfoStart
 }
 
 type Case struct {
@@ -152,16 +154,23 @@ func newSym(c *Case) *sym {
 			maxT = p.T
 		}
 	}
-	e := 0
-	if c.O.Regime == "stamp" {
-		e = c.O.Eps
+	e := c.O.Eps
+	if c.O.Regime == "commit" {
+		e = 0
 	}
 	s.hz = maxT + e + 1
 	u := time.Duration(c.Lay.Unit) * time.Second
-	if c.O.Regime == "commit" {
+	switch {
+	case c.O.Regime == "commit":
 		// every committed time is on or after CommitInfoStart, and so is every timestamp
 		s.origin = osm.CommitInfoStart.Add(time.Duration(c.Lay.Base) * time.Second)
-	} else {
+	case c.O.Regime == "mixed":
+		// abstract time `cut` is CommitInfoStart: earlier versions have a timestamp only
+		s.origin = osm.CommitInfoStart.Add(-time.Duration(c.O.Cut) * u)
+	case c.Lay.Late:
+		// timestamps only (no commit info in the data), all of them after CommitInfoStart
+		s.origin = osm.CommitInfoStart.Add(time.Duration(c.Lay.Base) * time.Second)
+	default:
 		// every timestamp of the history is before CommitInfoStart
 		s.origin = osm.CommitInfoStart.Add(-time.Duration(c.Lay.Base+1) * time.Second).Add(-time.Duration(maxT) * u)
 	}
@@ -183,9 +192,13 @@ func (s *sym) absTime(t time.Time) int {
 
 // stamps returns (Timestamp, Committed) of an element version at abstract time t
 func (s *sym) stamps(t int) (time.Time, *time.Time) {
-	if s.c.O.Regime == "commit" {
+	switch {
+	case s.c.O.Regime == "commit":
 		c := s.time(t)
 		return c.Add(-time.Duration(s.c.Lay.Skew) * time.Second), &c
+	case s.c.O.Regime == "mixed" && t >= s.c.O.Cut:
+		c := s.time(t)
+		return c, &c
 	}
 	return s.time(t), nil
 }
@@ -555,7 +568,8 @@ func randomHistory(rng *rand.Rand, nk, maxV, maxP, maxDt, ncs int) (Hist, Opt) {
 	for s := 0; s < steps && now < 24; s++ {
 		tick()
 		cs := 1 + rng.Intn(ncs)
-		switch a := rng.Intn(100); {
+		a := rng.Intn(100)
+		switch {
 		case a < 55: // child edit / undelete (also creates)
 			k := rng.Intn(nk)
 			if len(h.Kids[k]) < maxV {
@@ -593,12 +607,61 @@ func randomHistory(rng *rand.Rand, nk, maxV, maxP, maxDt, ncs int) (Hist, Opt) {
 	if len(h.Par) == 0 {
 		h.Par = append(h.Par, PVer{now, true, 1, []Ref{{K: 1}}})
 	}
-	o := Opt{Regime: []string{"commit", "stamp"}[rng.Intn(2)], Eps: rng.Intn(3), IgI: rng.Intn(3) == 0, IgM: rng.Intn(2) == 0}
+	o := Opt{Regime: []string{"commit", "stamp", "mixed"}[rng.Intn(3)], Eps: rng.Intn(3), IgI: rng.Intn(3) == 0, IgM: rng.Intn(2) == 0}
+	if o.Regime == "mixed" {
+		o.Cut = 1 + rng.Intn(now+1)
+	}
 	switch rng.Intn(5) {
 	case 0:
 		o.Filt = -1
 	case 1:
 		o.Filt = 1 + rng.Intn(nk)
+	}
+	return h, o
+}
+
+// busyHistory: few children, each edited several times (often within one tick) between the
+// early parent versions and a few times after the later ones: many updates per position on a
+// parent version that is not the last one.
+func busyHistory(rng *rand.Rand, nk, np, ncs int) (Hist, Opt) {
+	h := Hist{Kids: make([][]Ver, nk)}
+	now := 0
+	for k := range h.Kids {
+		h.Kids[k] = []Ver{{now, true, 1 + rng.Intn(ncs)}}
+	}
+	for p := 0; p < np; p++ {
+		refs := []Ref{}
+		for k := 0; k < nk; k++ {
+			refs = append(refs, Ref{K: k + 1})
+		}
+		for j := rng.Intn(3); j > 0; j-- {
+			refs = append(refs, Ref{K: 1 + rng.Intn(nk)})
+		}
+		rng.Shuffle(len(refs), func(a, b int) { refs[a], refs[b] = refs[b], refs[a] })
+		now += rng.Intn(2)
+		h.Par = append(h.Par, PVer{now, true, 1 + rng.Intn(ncs), refs})
+		for k := 0; k < nk; k++ {
+			n := rng.Intn(3)
+			if p < np-1 && rng.Intn(4) != 0 {
+				n = 3 + rng.Intn(4)
+			}
+			t := now
+			for e := 0; e < n; e++ {
+				t += rng.Intn(2)
+				h.Kids[k] = append(h.Kids[k], Ver{t, true, 1 + rng.Intn(ncs)})
+			}
+		}
+		for _, kl := range h.Kids {
+			if t := kl[len(kl)-1].T; t > now {
+				now = t
+			}
+		}
+		now += 1 + rng.Intn(2)
+	}
+	// child versions of different children interleave in time but each list stays ordered
+	o := Opt{Regime: []string{"commit", "stamp", "mixed"}[rng.Intn(3)], Eps: rng.Intn(2), IgI: rng.Intn(4) == 0}
+	if o.Regime == "mixed" {
+		o.Cut = 1 + rng.Intn(now+1)
 	}
 	return h, o
 }
@@ -616,7 +679,13 @@ func main() {
 		enc := json.NewEncoder(os.Stdout)
 		for i := 0; i < *nRandom; i++ {
 			nk := 1 + rng.Intn(*kids)
-			h, o := randomHistory(rng, nk, 1+rng.Intn(*vers), 1+rng.Intn(*pars), 3, 3)
+			var h Hist
+			var o Opt
+			if i%4 == 3 {
+				h, o = busyHistory(rng, 1+rng.Intn(4), 2+rng.Intn(2), 3)
+			} else {
+				h, o = randomHistory(rng, nk, 1+rng.Intn(*vers), 1+rng.Intn(*pars), 3, 3)
+			}
 			vio.Must(enc.Encode(map[string]interface{}{"h": h, "o": o}), "encode")
 		}
 		return
